@@ -103,6 +103,42 @@ def rsaSignRep (pad : String) (n : Nat) (pre : Bool) (msg : Bytes) : Option (Opt
   | "basic" => some (if klen ≥ dg.length + 2 then some (os2ip ([0x00, 0xff] ++ List.replicate (klen - dg.length - 2) 0 ++ dg)) else none)
   | _ => none
 
+/-- `k` ring elements "h pk c0 c1 r0 r1" from a token list; returns the rest -/
+def parseRing (p : Nat) : Nat → List String → Option (List (RingElt Point) × List String)
+  | 0, l => some ([], l)
+  | k + 1, h :: pk :: c0 :: c1 :: r0 :: r1 :: rest => do
+    let h ← parsePt p h
+    let pk ← parsePt p pk
+    let c0 ← parseHexInt c0; let c1 ← parseHexInt c1; let r0 ← parseHexInt r0; let r1 ← parseHexInt r1
+    let (l, rest) ← parseRing p k rest
+    some ({ h := h, pk := pk, c0 := c0, c1 := c1, r0 := r0, r1 := r1 } :: l, rest)
+  | _, _ => none
+
+/-- "h pk c0 c1 r0 r1 tau d0 d1 t0 t1" -/
+def parseLinkRing (p : Nat) : Nat → List String → Option (List (LinkElt Point) × List String)
+  | 0, l => some ([], l)
+  | k + 1, l => do
+    let (e, rest) ← parseRing p 1 l
+    let e ← e.head?
+    match rest with
+    | tau :: d0 :: d1 :: t0 :: t1 :: rest =>
+      let tau ← parsePt p tau
+      let d0 ← parseHexInt d0; let d1 ← parseHexInt d1; let t0 ← parseHexInt t0; let t1 ← parseHexInt t1
+      let (l, rest) ← parseLinkRing p k rest
+      some ({ e := e, tau := tau, d0 := d0, d1 := d1, t0 := t0, t1 := t1 } :: l, rest)
+    | _ => none
+
+/-- "y h pk c0 c1 r0 r1" -/
+def parseTrsRing (p : Nat) : Nat → List String → Option (List (TrsElt Point) × List String)
+  | 0, l => some ([], l)
+  | k + 1, y :: l => do
+    let y ← parseHexInt y
+    let (e, rest) ← parseRing p 1 l
+    let e ← e.head?
+    let (l, rest) ← parseTrsRing p k rest
+    some ({ y := y, e := e } :: l, rest)
+  | _, _ => none
+
 def handleWith (fast : Bool) (env : Option C03.Env) (w : Nat) (op : String) (args : List String) (got : String) : Option Verdict :=
   match op, args with
   -- ---------------------------------------------------------------- RSA (no curve needed)
@@ -155,6 +191,10 @@ def handleWith (fast : Bool) (env : Option C03.Env) (w : Nat) (op : String) (arg
         let q ← (kv.lookup "q").bind (parsePt e.c.p)
         some (decide (0 < d ∧ d < n) && q == mulG d)).getD false
       mustHold ok got "d in [1, n-1], Q = dG" (opn)
+    else if opn == "ers_gen" then
+      let kv := parseKV got
+      let ok := ((kv.lookup "pp").bind (parsePt e.c.p)).map (fun pp => o.pub pp && kv.lookup "on" == some "1") |>.getD false
+      mustHold ok got "a point of the group other than the identity" "ers.gen"
     else none
   | "ecdsa_sig", [_, hash, msg, d] => do
     let msg ← parseBytes msg
@@ -184,6 +224,168 @@ def handleWith (fast : Bool) (env : Option C03.Env) (w : Nat) (op : String) (arg
     let ee ← parseHexInt ee
     let s ← parseHexInt s
     verdict (ecssVerify o sha n fc g q msg ee s) got "ecss"
+  | "vbnn_gen_prv", [_, msk, id] => do
+    let msk ← parseHexNat msk
+    let id ← parseBytes id
+    let kv := parseKV got
+    let ok := (do
+      let sk ← kvNat kv "sk"
+      let pk ← (kv.lookup "pk").bind (parsePt e.c.p)
+      some (decide (sk < n) && o.pub pk && vbnnKeyOk o sha n g (mulG msk) pk id sk)).getD false
+    mustHold ok got "a user key (sk, R) with sk G = R + H(id, R) mpk" "vbnn.gen_prv"
+  | "vbnn_sig", [_, id, msg, sk, pk] => do
+    let id ← parseBytes id
+    let msg ← parseBytes msg
+    let sk ← parseHexNat sk
+    let pk ← parsePt e.c.p pk
+    let kv := parseKV got
+    -- the master public key is determined by the user key: c mpk = sk G - R; the signature is checked through the equivalent
+    -- equation Z = zG - h (sk G) (what the verifier computes when the key is consistent)
+    let ok := (do
+      let r ← (kv.lookup "r").bind (parsePt e.c.p)
+      let z ← kvNat kv "z"
+      let h ← kvNat kv "h"
+      let Z := o.sub (o.smul z g) (o.smul h (mulG sk))
+      some (r == pk && decide (z < n ∧ h < n) && !o.isZero Z &&
+        decide (hashToZn sha n (id ++ msg ++ o.enc pk ++ o.enc Z) = h))).getD false
+    mustHold ok got "a signature (R, z, h) with h = H(id, m, R, zG - h sk G)" "vbnn.sig"
+  | "vbnn_ver", [r, z, h, id, msg, mpk] => do
+    let r ← parsePt e.c.p r
+    let z ← parseHexInt z
+    let h ← parseHexInt h
+    let id ← parseBytes id
+    let msg ← parseBytes msg
+    let mpk ← parsePt e.c.p mpk
+    verdict (vbnnVerify o sha n g mpk r z h id msg) got "vbnn"
+  | "pokdl_prv", [_, y, x] => do
+    let y ← parsePt e.c.p y
+    let _x ← parseHexNat x
+    let kv := parseKV got
+    let ok := (do
+      let c ← kvInt kv "c"; let r ← kvInt kv "r"
+      some (sokdlVerify o sha n fc g y [] c r)).getD false
+    mustHold ok got "a proof (c, r) that verifies" "pokdl.prv"
+  | "sokdl_sig", [_, msg, y, x] => do
+    let msg ← parseBytes msg
+    let y ← parsePt e.c.p y
+    let _x ← parseHexNat x
+    let kv := parseKV got
+    let ok := (do
+      let c ← kvInt kv "c"; let r ← kvInt kv "r"
+      some (sokdlVerify o sha n fc g y msg c r)).getD false
+    mustHold ok got "a signature of knowledge (c, s) that verifies" "sokdl.sig"
+  | "pokdl_ver", [c, r, y] => do
+    let c ← parseHexInt c
+    let r ← parseHexInt r
+    let y ← parsePt e.c.p y
+    verdict (sokdlVerify o sha n fc g y [] c r) got "pokdl"
+  | "sokdl_ver", [c, r, msg, y] => do
+    let c ← parseHexInt c
+    let r ← parseHexInt r
+    let msg ← parseBytes msg
+    let y ← parsePt e.c.p y
+    verdict (sokdlVerify o sha n fc g y msg c r) got "sokdl"
+  | "pokor_prv", [_, y0, y1, _x] => do
+    let y0 ← parsePt e.c.p y0
+    let y1 ← parsePt e.c.p y1
+    let kv := parseKV got
+    let ok := (do
+      let c0 ← kvInt kv "c0"; let c1 ← kvInt kv "c1"; let r0 ← kvInt kv "r0"; let r1 ← kvInt kv "r1"
+      some (sokorVerify o sha n fc g g y0 y1 [] c0 c1 r0 r1)).getD false
+    mustHold ok got "a proof (c0, c1, r0, r1) that verifies" "pokor.prv"
+  | "sokor_sig", [_, msg, y0, y1, g0, g1, _x, _first] => do
+    let msg ← parseBytes msg
+    let y0 ← parsePt e.c.p y0
+    let y1 ← parsePt e.c.p y1
+    let g0 ← if g0 == "-" then some g else parsePt e.c.p g0
+    let g1 ← if g1 == "-" then some g else parsePt e.c.p g1
+    let kv := parseKV got
+    let ok := (do
+      let c0 ← kvInt kv "c0"; let c1 ← kvInt kv "c1"; let r0 ← kvInt kv "r0"; let r1 ← kvInt kv "r1"
+      some (sokorVerify o sha n fc g0 g1 y0 y1 msg c0 c1 r0 r1)).getD false
+    mustHold ok got "a signature of knowledge (c0, c1, s0, s1) that verifies" "sokor.sig"
+  | "pokor_ver", [c0, c1, r0, r1, y0, y1] => do
+    let c0 ← parseHexInt c0; let c1 ← parseHexInt c1; let r0 ← parseHexInt r0; let r1 ← parseHexInt r1
+    let y0 ← parsePt e.c.p y0
+    let y1 ← parsePt e.c.p y1
+    verdict (sokorVerify o sha n fc g g y0 y1 [] c0 c1 r0 r1) got "pokor"
+  | "sokor_ver", [c0, c1, r0, r1, msg, y0, y1, g0, g1] => do
+    let c0 ← parseHexInt c0; let c1 ← parseHexInt c1; let r0 ← parseHexInt r0; let r1 ← parseHexInt r1
+    let msg ← parseBytes msg
+    let y0 ← parsePt e.c.p y0
+    let y1 ← parsePt e.c.p y1
+    let g0 ← if g0 == "-" then some g else parsePt e.c.p g0
+    let g1 ← if g1 == "-" then some g else parsePt e.c.p g1
+    verdict (sokorVerify o sha n fc g0 g1 y0 y1 msg c0 c1 r0 r1) got "sokor"
+  | "ers_ver", td :: msg :: pp :: k :: rest => do
+    let td ← parseHexInt td
+    let msg ← parseBytes msg
+    let pp ← parsePt e.c.p pp
+    let k ← k.toNat?
+    let ring ← parseRing e.c.p k rest
+    verdict (ersVerify o sha n fc g pp td ring.1 msg) got "ers"
+  | "ers_run", [_, msg, k] => do
+    let msg ← parseBytes msg
+    let k ← k.toNat?
+    -- pp=<pt> td=<hex> size=<k> elements… v=<verdict> sk=<hex>: the honest ring must verify, and the library must say so
+    let toks := got.splitOn " "
+    let ok := (do
+      let pp ← ((toks.getD 0 "").dropPrefix? "pp=").bind (fun t => parsePt e.c.p t.toString)
+      let td ← ((toks.getD 1 "").dropPrefix? "td=").bind (fun t => parseHexInt t.toString)
+      let (ring, rest) ← parseRing e.c.p k (toks.drop 3)
+      some (toks.getD 2 "" == "size=" ++ toString k && rest.head? == some "v=1" && ersVerify o sha n fc g pp td ring msg)).getD false
+    mustHold ok got "an extended ring signature that verifies (and v=1)" "ers.run"
+  | "smlers_run", [_, msg, k] => do
+    let msg ← parseBytes msg
+    let k ← k.toNat?
+    let toks := got.splitOn " "
+    let ok := (do
+      let pp ← ((toks.getD 0 "").dropPrefix? "pp=").bind (fun t => parsePt e.c.p t.toString)
+      let hm ← ((toks.getD 1 "").dropPrefix? "hm=").bind (fun t => parsePt e.c.p t.toString)
+      let td ← ((toks.getD 2 "").dropPrefix? "td=").bind (fun t => parseHexInt t.toString)
+      let (ring, rest) ← parseLinkRing e.c.p k (toks.drop 4)
+      some (toks.getD 3 "" == "size=" ++ toString k && rest.head? == some "v=1" && smlersVerify o sha n fc g hm pp td ring msg)).getD false
+    mustHold ok got "an extended linkable ring signature that verifies (and v=1)" "smlers.run"
+  | "smlers_ver", td :: msg :: pp :: k :: rest => do
+    let td ← parseHexInt td
+    let msg ← parseBytes msg
+    let pp ← parsePt e.c.p pp
+    let k ← k.toNat?
+    let (ring, _) ← parseLinkRing e.c.p k rest
+    -- the hash-to-curve value H(m) is taken from the oracle's line (property C13): "hm=<pt> v=…"
+    match got.splitOn " " with
+    | hmTok :: vd =>
+      let vds := String.intercalate " " vd
+      match (hmTok.dropPrefix? "hm=").bind (fun t => parsePt e.c.p t.toString) with
+      | some hm =>
+        let acc := smlersVerify o sha n fc g hm pp td ring msg
+        some { model := got, spec := if acc then [hmTok ++ " v=1"] else [hmTok ++ " v=0", hmTok ++ " v=0 err", hmTok ++ " err"],
+               tags := ["smlers" ++ (if acc then ".accept" else ".reject")] }
+      | none => some { model := got, spec := if vds == "err" || vds.startsWith "v=0" then [got] else ["<hm=point verdict>"], tags := ["smlers.reject"] }
+    | _ => none
+  | "etrs_run", [_, msg, _max, _ext, _uni] => do
+    let msg ← parseBytes msg
+    let toks := got.splitOn " "
+    let ok := (do
+      let pp ← ((toks.getD 0 "").dropPrefix? "pp=").bind (fun t => parsePt e.c.p t.toString)
+      let thres ← ((toks.getD 1 "").dropPrefix? "thres=").bind (fun t => t.toString.toNat?)
+      let mx ← ((toks.getD 2 "").dropPrefix? "max=").bind (fun t => t.toString.toNat?)
+      let tds ← ((toks.drop 3).take mx).mapM parseHexInt
+      let ys ← ((toks.drop (3 + mx)).take mx).mapM parseHexInt
+      let size ← ((toks.getD (3 + 2 * mx) "").dropPrefix? "size=").bind (fun t => t.toString.toNat?)
+      let (ring, rest) ← parseTrsRing e.c.p size (toks.drop (4 + 2 * mx))
+      some (rest.head? == some "v=1" && etrsVerify o sha n fc g pp thres tds ys ring msg)).getD false
+    mustHold ok got "an extendable threshold ring signature that verifies at its threshold (and v=1)" "etrs.run"
+  | "etrs_ver", thres :: msg :: pp :: mx :: rest => do
+    let thres ← thres.toNat?
+    let msg ← parseBytes msg
+    let pp ← parsePt e.c.p pp
+    let mx ← mx.toNat?
+    let tds ← (rest.take mx).mapM parseHexInt
+    let ys ← ((rest.drop mx).take mx).mapM parseHexInt
+    let size ← (rest.getD (2 * mx) "").toNat?
+    let (ring, _) ← parseTrsRing e.c.p size (rest.drop (2 * mx + 1))
+    verdict (etrsVerify o sha n fc g pp thres tds ys ring msg) got "etrs"
   | _, _ => none
 
 /-- the lines are evaluated with the accelerated scalar multiplication; a deterministic sample (by the length of the line) is
@@ -193,7 +395,8 @@ def handle (env : Option C03.Env) (w : Nat) (op : String) (args : List String) (
   | none => none
   | some v =>
     let len := args.foldl (fun a s => a + s.length) op.length
-    if env.isSome && !op.startsWith "rsa" && len % 16 == 3 then
+    let cheap := ["ecdsa_ver", "ecdsa_sig", "ecss_ver", "ecss_sig", "vbnn_ver", "pokdl_ver", "sokdl_ver", "pokor_ver", "sokor_ver"].contains op
+    if env.isSome && ((cheap && len % 16 == 3) || (!cheap && !op.startsWith "rsa" && len % 256 == 3)) then
       match handleWith false env w op args got with
       | some v' =>
         if v'.spec == v.spec && v'.model == v.model then some { v with tags := v.tags ++ ["affine-recheck"] }
